@@ -342,21 +342,28 @@ def run_trace_check(pid: str, tier: str, seed: int) -> int:
         ex_total["depth"] = max(ex_total["depth"], st["depth"])
         ex_desc.append(f"{u} depth {depth} families {fam}: {st['distinct']} distinct / {st['generated']} generated")
     if plan.get("layout"):
-        # the code-shaped registry model: every history of composite creation / merge / combine / measure
-        ne, nc, mh, ms = plan["layout"][tier]
-        lcfg = os.path.join(OUT, f"{pid}_{tier}_layout.cfg")
-        with open(lcfg, "w") as fh:
-            fh.write(f'CONSTANTS\n  NEnvL = {ne}\n  NCus = {nc}\n  MaxH = {mh}\n  MaxSteps = {ms}\n  Fault = "none"\n'
-                     "INIT LInit\nNEXT LNext\nINVARIANT Truthful\nPROPERTY StepClauses\nCHECK_DEADLOCK FALSE\n")
-        st, _ = tlcrun.check("PWLayout", lcfg, workers=16, timeout=3000)
-        ex_total["generated"] += st["generated"]
-        ex_total["distinct"] += st["distinct"]
-        ex_desc.append(f"PWLayout {ne} envelopes + {nc} custom, {mh} handles, {ms} calls: {st['distinct']} distinct / {st['generated']} generated")
+        # the code-shaped registry model: every history of composite creation / merge (in argument order) / combine /
+        # reorder / measure up to the bound; the second configuration has four handles and no custom state (merge chains)
+        runs = {"quick": [((2, 1, 2, 3), True), ((2, 0, 4, 4), False)],
+                "thorough": [((2, 1, 2, 4), True), ((2, 1, 3, 3), True), ((2, 0, 4, 4), True)]}[tier]
+        for (ne, nc, mh, ms), steps in runs:
+            lcfg = os.path.join(OUT, f"{pid}_{tier}_layout_{ne}{nc}{mh}{ms}.cfg")
+            with open(lcfg, "w") as fh:
+                fh.write(f'CONSTANTS\n  NEnvL = {ne}\n  NCus = {nc}\n  MaxH = {mh}\n  MaxSteps = {ms}\n  Fault = "none"\n'
+                         "INIT LInit\nNEXT LNext\nINVARIANT Truthful\n" + ("PROPERTY StepClauses\n" if steps else "") + "CHECK_DEADLOCK FALSE\n")
+            st, _ = tlcrun.check("PWLayout", lcfg, workers=16, timeout=3000)
+            ex_total["generated"] += st["generated"]
+            ex_total["distinct"] += st["distinct"]
+            ex_desc.append(f"PWLayout {ne} envelopes + {nc} custom, {mh} handles, {ms} calls"
+                           f"{' (state and step clauses)' if steps else ' (state clauses)'}: {st['distinct']} distinct / {st['generated']} generated")
         # non-vacuity: each defect the pinned code had must be refuted by TLC on the model
+        fault_cfg = {"no_refresh_on_merge": (2, 0, 3, 5), "refresh_before_remove": (2, 1, 2, 4),
+                     "dup_on_merge": (2, 0, 4, 5), "stale_handles": (2, 0, 4, 4)}
         for fault in plan.get("layout_faults", {}).get(tier, []):
+            ne, nc, mh, ms = fault_cfg[fault]
             fcfg = os.path.join(OUT, f"{pid}_{tier}_layout_{fault}.cfg")
             with open(fcfg, "w") as fh:
-                fh.write(f'CONSTANTS\n  NEnvL = {ne}\n  NCus = {nc}\n  MaxH = {mh}\n  MaxSteps = 4\n  Fault = "{fault}"\n'
+                fh.write(f'CONSTANTS\n  NEnvL = {ne}\n  NCus = {nc}\n  MaxH = {mh}\n  MaxSteps = {ms}\n  Fault = "{fault}"\n'
                          "INIT LInit\nNEXT LNext\nINVARIANT Truthful\nCHECK_DEADLOCK FALSE\n")
             rc, out = tlcrun.tlc("PWLayout", fcfg, ["-workers", "16"], timeout=3000)
             if "Invariant Truthful is violated" not in out:
